@@ -12,7 +12,8 @@
       whatever truth value and `== None` answer its class defines - the code must test `is None`, nothing else;
     * what kind of async function the body retried by `aretry` is (`BodyKind`): one that runs when its task is
       scheduled (`@asynq()`), or one that runs eagerly inside `fn.asynq(..)` (`@async_proxy()`);
-    * the error cases (empty input, no arguments, unexpected keyword, values that cannot be ordered);
+    * the error cases (empty input, no arguments, a keyword argument besides `key=` - `ExtraKw`: one that nobody
+      knows, or `default=`, which max / min accept and amax / amin refuse -, values that cannot be ordered);
     * every `yield` of per-element tasks (`Run.rounds`): one entry per yield, holding for every task issued in
       that yield whether its body blocks on the batch of the harness.  All tasks of one yield that block are
       flushed together (scheduler contract, properties C04/C05), hence `flushSizes`.
@@ -40,6 +41,7 @@ inductive Out (α : Type) where
   | pair (yes no : List α)       -- asift
   | val (v : Int)                -- aretry: the value the body returned
   | none                         -- Python None
+  | dflt                         -- the object passed as `default=` to max / min (identity token of its own)
   deriving Repr, DecidableEq, Inhabited
 
 inductive Res (α : Type) where
@@ -208,6 +210,17 @@ def asorted (env : Env α) (key : FnObj) (rev : Bool) (s : Src α) : Run α :=
         -- `pairs = sorted(zip(keys, values), key=lambda p: p[0], reverse=reverse)`; `return [p[1] for p in pairs]`
         ⟨.ok (.elems ((pySorted Prod.fst rev (keys.zip values)).map Prod.snd)), r, 0⟩
 
+/-- keyword arguments of an amax / amin call besides `key=` -/
+inductive ExtraKw where
+  | none       -- nothing but (possibly) `key=`
+  | unknown    -- a keyword that neither max / min nor amax / amin know (`bogus=1`)
+  | dflt       -- `default=d`: max / min accept it (Python >= 3.4), amax / amin refuse it like any other keyword
+  deriving Repr, DecidableEq, Inhabited
+
+@[simp] theorem ExtraKw.none_bne : (ExtraKw.none != ExtraKw.none) = false := rfl
+@[simp] theorem ExtraKw.unknown_bne : (ExtraKw.unknown != ExtraKw.none) = true := rfl
+@[simp] theorem ExtraKw.dflt_bne : (ExtraKw.dflt != ExtraKw.none) = true := rfl
+
 /-- positional arguments of amax / amin: one iterable, or the elements themselves -/
 inductive MaxArgs (α : Type) where
   | one (s : Src α)            -- `amax(iterable, ...)`
@@ -222,9 +235,9 @@ def maxIterable : MaxArgs α → Except Exc (Src α)
   | .elems xs => .ok ⟨.tuple, xs⟩
 
 /-- tools.py:99-148 `amax` (`isMin = false`) and `amin` (`isMin = true`), which differ in `max` / `min` only -/
-def amaxmin (env : Env α) (isMin badKw : Bool) (keyFn : FnObj) (args : MaxArgs α) : Run α :=
-  -- `key_fn = kwargs.pop("key", None)`; `if kwargs: raise TypeError`
-  if badKw then ⟨.raised .typeError, [], 0⟩ else
+def amaxmin (env : Env α) (isMin : Bool) (kw : ExtraKw) (keyFn : FnObj) (args : MaxArgs α) : Run α :=
+  -- `key_fn = kwargs.pop("key", None)`; `if kwargs: raise TypeError` - WHICH keyword is left over is not looked at
+  if kw != .none then ⟨.raised .typeError, [], 0⟩ else
   match maxIterable args with
   | .error x => ⟨.raised x, [], 0⟩
   | .ok iterable =>
@@ -343,7 +356,7 @@ inductive Call (α : Type) where
   | afilter (function : FnObj) (s : Src α)
   | afilterfalse (s : Src α)
   | asorted (key : FnObj) (rev : Bool) (s : Src α)
-  | amaxmin (isMin badKw : Bool) (key : FnObj) (args : MaxArgs α)
+  | amaxmin (isMin : Bool) (kw : ExtraKw) (key : FnObj) (args : MaxArgs α)
   | asift (s : Src α)
   | aretry (maxTries : Nat) (listed : List Nat) (script : List Attempt) (blocking : Bool) (kind : BodyKind)
   deriving Repr, DecidableEq, Inhabited
@@ -353,7 +366,7 @@ def run (env : Env α) : Call α → Run α
   | .afilter n s => afilter env n s
   | .afilterfalse s => afilterfalse env s
   | .asorted kn rev s => asorted env kn rev s
-  | .amaxmin isMin badKw kn args => amaxmin env isMin badKw kn args
+  | .amaxmin isMin kw kn args => amaxmin env isMin kw kn args
   | .asift s => asift env s
   | .aretry m l sc b k => aretry m l sc b k
 
@@ -424,7 +437,14 @@ def argItems : MaxArgs α → Option (List α)
   | .elems [_] => none
   | .elems xs => some xs
 
-/-- the observation the property demands of an invocation -/
+def MaxArgs.isVarargs : MaxArgs α → Bool
+  | .one _ => false
+  | .elems _ => true
+
+/-- the observation the property demands of an invocation: what the BUILT-IN counterpart gives on the same
+    arguments (written without looking at tools.py), every per-element call made once, one flush.
+    For a call that passes `default=` this is what max / min do with it; such calls are outside the statement
+    C14 makes (`Call.inStatement`), see `C14_default_kw_outside_statement`. -/
 def expected (env : Env α) : Call α → Obs α
   | .amap s =>
     if s.kind = .nonIter then noCalls (.raised .typeError)
@@ -442,18 +462,23 @@ def expected (env : Env α) : Call α → Obs α
       if unorderable env s.items then noCalls (.raised .typeError)
       else noCalls (.ok (.elems (stableSort (selfKey env) rev s.items)))
     else perElem env (.ok (.elems (stableSort env.key rev s.items))) s.items
-  | .amaxmin isMin badKw key args =>
-    if badKw then noCalls (.raised .typeError) else     -- unexpected keyword
+  | .amaxmin isMin kw key args =>
+    -- a keyword the built-in does not know either
+    if kw = .unknown then noCalls (.raised .typeError) else
     match argItems args with
     | none => noCalls (.raised .typeError)               -- no arguments / one argument that is not iterable
     | some xs =>
+      -- `max(a, b, default=d)`: "Cannot specify a default for max() with multiple positional arguments"
+      if kw = .dflt && args.isVarargs then noCalls (.raised .typeError) else
+      -- empty input: ValueError, unless a default was given - then the default is the answer
+      let empty : Res α := if kw = .dflt then .ok .dflt else .raised .valueError
       if key = .none then
         if unorderable env xs then noCalls (.raised .typeError)
         else match firstExt isMin (selfKey env) xs with
-          | none => noCalls (.raised .valueError)        -- empty input
+          | none => noCalls empty
           | some m => noCalls (.ok (.elem m))
       else match firstExt isMin env.key xs with
-        | none => perElem env (.raised .valueError) xs
+        | none => perElem env empty xs
         | some m => perElem env (.ok (.elem m)) xs
   | .asift s =>
     if s.kind = .nonIter then noCalls (.raised .typeError)
@@ -490,5 +515,23 @@ def Call.items : Call α → List α
 def Call.isRetry : Call α → Bool
   | .aretry .. => true
   | _ => false
+
+/-- the calls C14 speaks about: every call except amax / amin with `default=`.  C14 quantifies over iterables,
+    async keys / predicates, `reverse` and the two call forms; `key` is the only keyword amax / amin declare
+    (tools.pyi), `default=` is refused with "unexpected keyword argument" (tools.py:103, 129). -/
+def Call.inStatement : Call α → Bool
+  | .amaxmin _ kw _ _ => kw != .dflt
+  | _ => true
+
+/-- does the invocation make per-element calls at all?  It does iff there is an async function to call (the
+    function / key argument is not `None`) and the call gets as far as iterating its input: the input is
+    iterable, and for amax / amin the arguments are well-formed (no further keyword, not zero arguments, not a
+    single non-iterable one). -/
+def Call.perElement : Call α → Bool
+  | .amap s | .afilterfalse s | .asift s => s.kind != .nonIter
+  | .afilter f s => !f.isNone && s.kind != .nonIter
+  | .asorted k _ s => !k.isNone && s.kind != .nonIter
+  | .amaxmin _ kw k args => kw == .none && !k.isNone && (argItems args).isSome
+  | .aretry .. => false
 
 end AsynqModel.Tools
